@@ -29,7 +29,7 @@ import (
 )
 
 type c20Op struct {
-	Kind  string `json:"k"` // write read mode modtime setmode setmodtime size list flushroot fileflush mv
+	Kind  string `json:"k"` // write read mode modtime setmode setmodtime size list listfull flushroot flushdir fileflush mv
 	File  int    `json:"f,omitempty"`
 	Sync  bool   `json:"sync,omitempty"`
 	Flush bool   `json:"flush,omitempty"` // write: call Flush before Close
@@ -52,7 +52,7 @@ func c20Gen(t *rapid.T, tier string) any {
 	if tier == "thorough" {
 		maxOps = 12
 	}
-	kinds := []string{"write", "write", "write", "read", "read", "mode", "modtime", "setmode", "setmodtime", "size", "list", "flushroot", "fileflush", "mv"}
+	kinds := []string{"write", "write", "write", "read", "read", "mode", "modtime", "setmode", "setmodtime", "size", "list", "listfull", "flushroot", "flushdir", "fileflush", "mv"}
 	gen := rapid.Custom(func(t *rapid.T) c20Op {
 		op := c20Op{Kind: rapid.SampledFrom(kinds).Draw(t, "k")}
 		op.File = rapid.IntRange(0, c.NFiles-1).Draw(t, "f")
@@ -324,9 +324,20 @@ func c20Run(t *testing.T, ci any, trace bool) *verifsim.Result {
 						if _, err := root.GetDirectory().ListNames(ctx); err != nil {
 							s.Failf("op-failed", "ListNames: %v", err)
 						}
+					case "listfull":
+						// unlike ListNames this asks every cached child for its node
+						if _, err := root.GetDirectory().List(ctx); err != nil {
+							s.Failf("op-failed", "List: %v", err)
+						}
 					case "flushroot":
 						if _, err := FlushPath(ctx, root, "/"); err != nil {
 							s.Failf("op-failed", "FlushPath(/): %v", err)
+						}
+						flushes = append(flushes, [2]int64{inv, s.Seq()})
+					case "flushdir":
+						// flush of the sub-directory only: child first, then its entry in the parent
+						if _, err := FlushPath(ctx, root, "/d"); err != nil {
+							s.Failf("op-failed", "FlushPath(/d): %v", err)
 						}
 						flushes = append(flushes, [2]int64{inv, s.Seq()})
 					case "fileflush":
